@@ -2,7 +2,9 @@ package main
 
 import (
 	"fmt"
+	"go/constant"
 	"go/token"
+	"go/types"
 	"strings"
 
 	"golang.org/x/tools/go/ssa"
@@ -237,7 +239,88 @@ func (c *Ctx) checkMatMul(oi *opInfo) {
 	}
 	c.decide(ok, "R16", key, c.pos(bc.Pos()), "batch broadcasting walks the axes len-3 down to 0: every batch axis and never a matrix axis", why)
 
-	// vector promotions: A (n) -> (1,n) prepended; B (n) -> (n,1) appended; undone: prepended removes axis len-2, appended removes axis len-1
+	// vector promotions: A (n) -> (1,n) prepended; B (n) -> (n,1) appended; each is undone on its own
+	c.checkMatMulUnpromote(apply)
 	got := c.successTerms(apply)
 	c.note("R16", "R16:matmul:terms", c.pos(apply.Pos()), strings.Join(got, " | "))
+}
+
+// checkMatMulUnpromote: MatMul.Apply remembers in two flags whether A / B was a vector that it promoted to a
+// matrix. After the product each flag, independently of the other, leads to the Reshape that removes the axis it
+// added: vector x vector must lose both (result rank 0). A switch / else-if between the two undoes only one.
+func (c *Ctx) checkMatMulUnpromote(apply *ssa.Function) {
+	key := "R16:matmul:unpromote"
+	var flags []*ssa.Phi
+	for _, b := range apply.Blocks {
+		for _, in := range b.Instrs {
+			phi, ok := in.(*ssa.Phi)
+			if !ok || len(phi.Edges) != 2 {
+				continue
+			}
+			if bt, isB := phi.Type().Underlying().(*types.Basic); !isB || bt.Kind() != types.Bool {
+				continue
+			}
+			t, f := false, false
+			for _, e := range phi.Edges {
+				if k, isK := e.(*ssa.Const); isK && k.Value != nil && k.Value.Kind() == constant.Bool {
+					if constant.BoolVal(k.Value) {
+						t = true
+					} else {
+						f = true
+					}
+				}
+			}
+			if t && f {
+				flags = append(flags, phi)
+			}
+		}
+	}
+	if len(flags) != 2 {
+		c.undecided("R16", key, c.pos(apply.Pos()), fmt.Sprintf("%d promotion flags found in MatMul.Apply (2 expected: A was a vector, B was a vector)", len(flags)))
+		return
+	}
+	bad := ""
+	for i, fl := range flags {
+		other := flags[1-i]
+		found := false
+		for _, r := range *fl.Referrers() {
+			iff, ok := r.(*ssa.If)
+			if !ok {
+				continue
+			}
+			// the true branch reshapes the result
+			reshapes := false
+			seen := map[*ssa.BasicBlock]bool{}
+			work := []*ssa.BasicBlock{iff.Block().Succs[0]}
+			for len(work) > 0 && len(seen) < 8 {
+				x := work[len(work)-1]
+				work = work[:len(work)-1]
+				if seen[x] || x == iff.Block().Succs[1] {
+					continue
+				}
+				seen[x] = true
+				for _, in := range x.Instrs {
+					if cl, ok := in.(*ssa.Call); ok {
+						if nm, _ := tensorMethod(cl); nm == "Reshape" {
+							reshapes = true
+						}
+					}
+				}
+				work = append(work, x.Succs...)
+			}
+			if !reshapes {
+				continue
+			}
+			found = true
+			for _, g := range guardsOf(iff.Block()) {
+				if stripNot(g.cond) == ssa.Value(other) {
+					bad = "the axis added for one vector operand is only removed when the other operand was not a vector (the two un-promotions are alternatives of one switch / else-if): vector x vector keeps an axis and returns shape (1) instead of a scalar"
+				}
+			}
+		}
+		if !found && bad == "" {
+			bad = "a promotion flag never leads to the Reshape that removes the added axis"
+		}
+	}
+	c.decide(bad == "", "R16", key, c.pos(apply.Pos()), "each vector promotion is undone on its own", bad)
 }
